@@ -26,6 +26,7 @@ ASSUMPTIONS = ["handlers removed by *another* party while a delivery that "
 REQUIRED = ["deliveries", "invocations", "reentrant_sub", "reentrant_sub_prio",
             "reentrant_unsub", "reentrant_raise", "halts", "once_consumed",
             "handler_exceptions", "noerrors_swallowed", "undeclared_rejected",
+            "sources_declaring_at_run_time_only",
             "weak_dropped", "handler_revent_errors",
             "noerrors_swallowed_with_reporting_hook_on",
             "lazily_initialised_sources", "halts_through_the_event_attribute",
@@ -94,6 +95,17 @@ class World (object):
         _eventMixin_events = set([E0])
         def __init__ (self):
           self._eventMixin_addEvents([E1])
+    elif flavour == 4:
+      # no declaration in the class at all: every instance declares its
+      # types when it is made; a neighbour of another class, made first and
+      # alive all along, declares other types for itself (what one source
+      # declares is nobody else's)
+      class Src (R.EventMixin):
+        def __init__ (self): self._eventMixin_addEvents([E0, E1])
+      class Neighbour (R.EventMixin):
+        def __init__ (self): self._eventMixin_addEvents([EX, E0b])
+      self.neighbour = Neighbour()
+      rep.count("sources_declaring_at_run_time_only")
     else:
       class Src (R.EventMixin):
         _eventMixin_events = set([E0, E1])
@@ -767,7 +779,7 @@ def gen_random (rng, n, maxlen):
     case = dict(ops=ops)
     r = rng.random()
     if r < 0.35: case["nsrc"] = rng.choice([2, 2, 3])
-    if rng.random() < 0.3: case["flavour"] = rng.randrange(1, 4)
+    if rng.random() < 0.35: case["flavour"] = rng.randrange(1, 5)
     yield case
 
 
